@@ -65,6 +65,38 @@ def run_panics(res, prog, fns, rid, floor_sites, floor_fns=None):
     return nontrivial
 
 
+G1_LINTS = {'indexing_slicing', 'arithmetic_side_effects', 'unwrap_used', 'expect_used', 'panic', 'unimplemented', 'unreachable', 'string_slice', 'todo'}
+
+
+def clippy_crosscheck(res, prog, fns, rid):
+    """thorough tier: every hit of clippy's opt-in panic-related restriction lints inside the scope must be a
+    site the inventory also saw (same file, within 3 lines).  A miss is a *checker* gap, reported in the
+    evidence, never a property violation."""
+    hits = harness.clippy_hits()
+    files = {}
+    for f in fns:
+        files.setdefault(f.file, []).append(f)
+    seen = {}
+    for f in fns:
+        for s in panics.inventory(f):
+            seen.setdefault(f.file, set()).add(s.line)
+        # float arithmetic and wrapping helpers are not panic edges; clippy flags integer `+ - * /` only
+    gaps = []
+    n = 0
+    for (file, line, lint) in hits:
+        if lint not in G1_LINTS or file not in files:
+            continue
+        # inside one of the scope functions?
+        if not any(f.line <= line <= max(f.end, f.line) for f in files[file]):
+            continue
+        n += 1
+        lines = seen.get(file, set())
+        if not any(abs(line - l) <= 3 for l in lines):
+            gaps.append('%s:%d %s' % (file, line, lint))
+    res.extra.setdefault('clippy_crosscheck', {})[rid] = {'clippy_hits_in_scope': n, 'not_matched_by_inventory': gaps[:40], 'lints': sorted(G1_LINTS)}
+    return gaps
+
+
 def run_loops(res, prog, fns, rid, floor_l3):
     table = load_loop_table()
     counts = {'L1': 0, 'L2': 0, 'L3': 0, 'M': 0}
@@ -173,7 +205,7 @@ def run_allocs(res, prog, fns, rid, floor):
             else:
                 size = f.operand_tree(t['args'][0])
             n += 1
-            ok, why = flow.size_ok(f, prog, f.crate, size)
+            ok, why = flow.size_ok(f, prog, f.crate, size, 0, b)
             key = '%s|alloc:%s|%s' % (f.qual, short, show(f.expand(size))[:300])
             if not ok and name.startswith('circular::Buffer::grow'):
                 # accepted when dominated by the false edge of `size > CAP`
